@@ -277,11 +277,21 @@ def _canonical_locals(rel, name, fn):
         return
     if len({w[0] for w in want}) != len({c[0] for c in cur}) and False:
         return
-    # one current name must map to one recorded name consistently (shadowed names may repeat)
+    # a name that is still in use keeps its meaning (declarations may have been reordered); only the names that disappeared are matched, in order,
+    # with the names that appeared
+    cur_names, want_names = {c[0] for c in cur}, {w[0] for w in want}
+    if cur_names == want_names:
+        return
+    rest_c = [c for c in cur if c[0] not in want_names]
+    rest_w = [w for w in want if w[0] not in cur_names]
+    if len(rest_c) == len(rest_w) and all(c[1] == w[1] for c, w in zip(rest_c, rest_w)):
+        pairs = list(zip(rest_c, rest_w))
+    else:
+        pairs = list(zip(cur, want))
     m = {}
-    for c, w in zip(cur, want):
+    for c, w in pairs:
         m[c[2]] = w[0]
-    fn["_rename"] = {c[0]: w[0] for c, w in zip(cur, want)}     # for rules that also read names from pragma text
+    fn["_rename"] = {c[0]: w[0] for c, w in pairs}     # for rules that also read names from pragma text
     for n in walk(fn):
         k = n.get("kind")
         if k == "VarDecl" and n.get("id") in m:
